@@ -96,7 +96,12 @@ inductive APc where
   deriving Repr, DecidableEq, Inhabited
 
 inductive ShutRet where
-  | ok | ctxErr
+  /-- nil -/
+  | ok
+  /-- the caller's context ended while a connection was still busy -/
+  | ctxErr
+  /-- a repeated call: everything swept, but closing the already closed listener reported an error -/
+  | lerr
   deriving Repr, DecidableEq, Inhabited
 
 /-- program counter of `Shutdown` -/
@@ -122,6 +127,8 @@ structure St where
   count : Int
   ctxCancelled : Bool
   sdCtxExpired : Bool
+  /-- Shutdown has been called again after a call that gave up with its context's error -/
+  sdAgain : Bool := false
 
 inductive Step where
   | clientConnect (c : Nat)
@@ -249,6 +256,9 @@ def step (cfg : Cfg) (s : St) : Step → St
     | .notCalled =>
       { s with isShutdown := true, listenerOpen := if s.listenerSet then false else s.listenerOpen,
                sd := .sweeping s.inMapIds true }
+    | .returned .ctxErr =>
+      -- called again (with a new context) after a call that timed out: the flag and the listener are as they were
+      { s with sd := .sweeping s.inMapIds true, sdCtxExpired := false, sdAgain := true }
     | _ => s
   | .shutdownScan c =>
     match s.sd with
@@ -263,7 +273,7 @@ def step (cfg : Cfg) (s : St) : Step → St
   | .shutdownTick =>
     match s.sd with
     | .sweeping [] allIdle =>
-      if allIdle then { s with sd := .returned .ok }
+      if allIdle then { s with sd := .returned (if s.sdAgain then .lerr else .ok) }
       else if s.sdCtxExpired then { s with sd := .returned .ctxErr }
       else { s with sd := .sweeping s.inMapIds true }
     | _ => s
